@@ -223,9 +223,10 @@ def build(P, t, mode, fwd=None):
             return P.Literal(t[1], ignore_case=t[2])
         return P.Literal(t[1], value=t[3], ignore_case=t[2])
     if k == "any":
-        return P.Wrapper(P.AnyChar)
+        # grammars use the module's AnyChar / EOF objects directly; the operator spelling wraps them
+        return P.Wrapper(P.AnyChar) if ops else P.AnyChar
     if k == "eof":
-        return P.Wrapper(P.EOF)
+        return P.Wrapper(P.EOF) if ops else P.EOF
     if k == "ref":
         return fwd
     if k in ("seq", "choice"):
@@ -458,6 +459,43 @@ def _all_inputs(alpha, maxlen):
             yield "".join(p)
 
 
+def _literals_of(t, out):
+    if t[0] == "lit" and isinstance(t[1], str) and t[1]:
+        out.append(t[1])
+    elif t[0] in ("char", "hang") and isinstance(t[1], str):
+        out.append(t[1])
+    for x in _subterms(t):
+        _literals_of(x, out)
+    return out
+
+
+def _literal_inputs(term):
+    """inputs derived from the term's own literals (a pure function of the term): a literal preceded by a
+    partial match of itself, doubled, interleaved with the other literals - the texts on which scanning to a
+    terminator, greedy repetition and backtracking after a partial match are decided"""
+    lits = []
+    for x in _literals_of(term, []):
+        if x not in lits:
+            lits.append(x)
+    lits = lits[:4]
+    out = []
+    for x in lits:
+        for k in range(1, len(x) + 1):
+            out.append(x[:k] + x)             # 'aab' for 'ab', '**/' for '*/'
+            out.append("c" + x[:k] + x + "c")
+            out.append(x[:k] * 2 + x + x[:k])
+        out.append(x + x)
+        for y in lits:
+            if y != x:
+                out.append(x + y)
+                out.append(y[:1] + x + y)
+    seen = []
+    for o in out:
+        if o not in seen and len(o) <= 12:
+            seen.append(o)
+    return seen[:40]
+
+
 def check_terms(case):
     from insights import parsr as P
     mode = case["mode"]
@@ -466,7 +504,7 @@ def check_terms(case):
     parser = P.Sequence([build(P, term, mode), P.Many(P.AnyChar)])
     n_ok = n_fail = 0
     tr = Trace()
-    inputs = list(_all_inputs(case["alpha"], case["maxlen"])) + list(case["extra"])
+    inputs = list(_all_inputs(case["alpha"], case["maxlen"])) + list(case["extra"]) + _literal_inputs(eff)
     for s in inputs:
         exp = ev(eff, s, 0, None, tr)
         try:
@@ -559,6 +597,20 @@ def _ext(ch):
         st.tuples(ch, st.sampled_from(["seq", "kr", "kl"])).map(
             lambda p: ["rec", ([p[1], [p[0], ["opt", ["ref"], None]]] if p[1] == "seq" else
                                [p[1], p[0], ["opt", ["ref"], None]])]),
+        # scanners: repetition up to a (multi-character) terminator, as in the shipped comment / quoted-string /
+        # heredoc grammars; the terminator can be preceded by a partial match of itself
+        st.tuples(st.sampled_from([["any"], ["any"], ["inset", "ab"], ["inset", "abc"], ["char", "a"]]),
+                  st.one_of(st.tuples(st.just("lit"), st.sampled_from(["ab", "ba", "aab", "abb", "aba", "aa", "abc", "b"]),
+                                      st.booleans(), st.none()).map(list),
+                            st.tuples(st.just("inset"), st.sampled_from(["a", "ab", "bc"])).map(list),
+                            st.tuples(st.just("char"), st.sampled_from(_AB)).map(list), ch)
+                  ).map(lambda p: ["until", p[0], p[1]]),
+        st.tuples(st.tuples(st.just("lit"), st.sampled_from(["ab", "a", "aab"]), st.booleans(), st.none()).map(list),
+                  st.sampled_from(["ab", "ba", "aab", "abb", "b"])).map(
+            lambda p: ["seq", [p[0], ["until", ["any"], ["lit", p[1], False, None]], ["lit", p[1], False, None]]]),
+        st.tuples(st.just("many"), st.tuples(st.just("kr"), st.tuples(st.just("nfb"), st.just(["lit", "ab", False, None]),
+                                                                       st.just(["any"])).map(list), st.just(["any"])).map(list),
+                  st.integers(0, 1)).map(list),
         # shapes the property names: look-ahead inside repetition, choice under sequence
         st.tuples(st.just("many"), st.tuples(st.sampled_from(["fb", "nfb"]), ch, ch).map(list),
                   st.integers(0, 1)).map(list),
@@ -1015,6 +1067,8 @@ def selftest():
     assert same([0, False], [0, False]) and not same([0], [False]) and not same(1, 1.0) and not same([], ())
 
 
+from vp import fuzz as _fuzz   # noqa: E402
+
 SUBS = [
     Sub("terms", check_terms, strategy=strat_terms, quick=600, thorough=5000, workers_quick=4,
         workers_thorough=16, budget_quick=30, budget_thorough=500),
@@ -1022,6 +1076,17 @@ SUBS = [
         workers_thorough=16, budget_quick=10, budget_thorough=300),
     Sub("taglang", check_taglang, strategy=strat_taglang, quick=600, thorough=8000, workers_quick=2,
         workers_thorough=16, budget_quick=15, budget_thorough=400),
+    # coverage-guided campaigns (Atheris / libFuzzer) over the same strategies and oracles: the combinator
+    # library, the JSON grammar and the tag language are pure Python, so edge coverage is a usable gradient
+    Sub("fz_terms", check_terms, custom=_fuzz.hyp_campaign(PROPERTY, "terms", ["insights.parsr"], runs_quick=150,
+                                                           runs_thorough=60000),
+        workers_quick=1, workers_thorough=16, budget_quick=30, budget_thorough=900),
+    Sub("fz_json", check_json, custom=_fuzz.hyp_campaign(PROPERTY, "json", ["insights.parsr", "insights.parsr.examples.json_parser"],
+                                                         runs_quick=300, runs_thorough=150000),
+        workers_quick=1, workers_thorough=16, budget_quick=30, budget_thorough=900),
+    Sub("fz_taglang", check_taglang, custom=_fuzz.hyp_campaign(PROPERTY, "taglang", ["insights.parsr", "insights.core.taglang"],
+                                                               runs_quick=300, runs_thorough=150000),
+        workers_quick=1, workers_thorough=16, budget_quick=30, budget_thorough=900),
 ]
 
 REGRESSIONS = [
